@@ -497,6 +497,15 @@ def check_scenario(sc, obs, add):
                 break
             if op['op'] in ('imap', 'imap_unordered') and op.get('consume', 'all') != 'all' and op.get('abandon') != 'close':
                 lazy_open = True
+    # worker_state is ONE object per instance: the k-th call an instance makes (init, tasks, exit, over all the calls it serves) is the
+    # k-th call its state object sees
+    seen = {}
+    for c in sorted([c for c in obs.get('calls', []) if len(c) > 12 and c[12] is not None], key=lambda c: c[6]):
+        k = seen.get(c[3], 0) + 1
+        seen[c[3]] = k
+        if c[12] != k:
+            add('C13', 'state_same_object', {'instance': c[2], 'token': c[3], 'call': c[1], 'nth_call_of_the_instance': k, 'nth_call_seen_by_its_state': c[12]})
+            break
     # a second pool of the same process, used in between: its calls are calls like any other (correct results, no failure)
     for opi, (op, oo) in enumerate(zip(sc['ops'], obs.get('ops', []))):
         if op['op'] == 'other_pool' and (oo.get('outcome') != 'ok' or oo.get('other_wrong')):
